@@ -337,11 +337,18 @@ package otp
 //@   loop 1 invariant fresh(suites)
 //@   ensures fresh(suites)
 
+// a data-input token the RFC 6287 naming scheme knows (tu is the upper-cased token t)
+//@ macro isdig(c) = '0' <= c && c <= '9'
+//@ macro sessiontok(tu) = tu == "S" || (len(tu) == 4 && tu[0] == 'S' && isdig(tu[1]) && isdig(tu[2]) && isdig(tu[3]))
+//@ macro tokok(t, tu) = tu == "C" || (hasprefix(tu, "QN") && (len(tu) != 4 || tu[2:] == "08" || tu[2:] == "10")) || hasprefix(tu, "QA") || hasprefix(tu, "QH") ||
+//@ |   tu == "PSHA1" || tu == "PSHA256" || tu == "PSHA512" || (hasprefix(tu, "T") && tgok(t[1:])) || sessiontok(tu)
 //@ func otp.parseDataInputTokens(cfg, input) (err)
 //@   requires cfg != nil
 //@   modifies cfg
 //@   loop 1 invariant -1 <= rangeindex && rangeindex < len(toks)
 //@   loop 1 invariant cfg.Hash == old(cfg.Hash) && cfg.Digits == old(cfg.Digits) && cfg.Raw == old(cfg.Raw)
+//@   loop 1 invariant forall k :: 0 <= k && k <= rangeindex ==> tokok(toks[k], upper(toks[k]))
+//@   ensures[tokens] err == nil ==> forall k :: 0 <= k && k < nparts(input, "-") ==> tokok(part(input, "-", k), upper(part(input, "-", k)))
 //@   ensures[frame] cfg.Hash == old(cfg.Hash) && cfg.Digits == old(cfg.Digits) && cfg.Raw == old(cfg.Raw)
 //@   loop 1 decreases len(toks) - rangeindex
 
